@@ -272,35 +272,81 @@ Qed.
 
 (* -- the exact result of a request that is refused, or returns before the check *)
 
+Definition refusal (p : option (list out)) (q : hq) : list out :=
+  match p with Some o => o | None => [mk_answer q s_BADIP 84] end.
+
+Lemma hL_refused c st now q unp : check_user_and_ip c st now (schar (chr unp 0)) (h_from q) = true ->
+  hL login c st now q unp =
+  (st, refusal (if (length unp <? 17)%nat then Some [mk_answer q s_BADLEN 84] else None) q).
+Proof. intros Hc. unfold hL. cbv zeta. destruct (_ <? 17)%nat; [reflexivity|]. rewrite Hc. reflexivity. Qed.
+
+Lemma hI_refused c st now q inb : check_auth c st now (Z.of_N (b32_8to5 (chr inb 1))) (h_from q) = true ->
+  hI c st now q inb = (st, [mk_answer q s_BADIP 84]).
+Proof. intros Hc. unfold hI. cbv zeta. rewrite Hc. reflexivity. Qed.
+
+Lemma hS_refused c st now q inb dl :
+  check_auth_options c st now (Z.of_N (b32_8to5 (chr inb 1))) (h_from q) = true ->
+  hS c st now q inb dl = (st, refusal (if (dl <? 3)%nat then Some [mk_answer q s_BADLEN 84] else None) q).
+Proof. intros Hc. unfold hS. cbv zeta. destruct (dl <? 3)%nat; [reflexivity|]. rewrite Hc. reflexivity. Qed.
+
+Lemma hO_refused c st now q inb dl :
+  check_auth_options c st now (Z.of_N (b32_8to5 (chr inb 1))) (h_from q) = true ->
+  hO c st now q inb dl = (st, refusal (if (dl <? 3)%nat then Some [mk_answer q s_BADLEN 84] else None) q).
+Proof. intros Hc. unfold hO. cbv zeta. destruct (dl <? 3)%nat; [reflexivity|]. rewrite Hc. reflexivity. Qed.
+
+Lemma hR_refused c st now rnd q inb dl :
+  check_auth c st now (Z.of_N ((b32_8to5 (chr inb 1) / 2) mod 16)) (h_from q) = true ->
+  hR c st now rnd q inb dl = (st, refusal (if (dl <? 16)%nat then Some [mk_answer q s_BADLEN 84] else None) q).
+Proof. intros Hc. unfold hR. cbv zeta. destruct (dl <? 16)%nat; [reflexivity|]. rewrite Hc. reflexivity. Qed.
+
+Lemma hN_refused c st now q unp : check_auth_options c st now (schar (chr unp 0)) (h_from q) = true ->
+  hN c st now q unp = (st, refusal (if (length unp <? 3)%nat then Some [mk_answer q s_BADLEN 84] else None) q).
+Proof. intros Hc. unfold hN. cbv zeta. destruct (_ <? 3)%nat; [reflexivity|]. rewrite Hc. reflexivity. Qed.
+
+Lemma hP_refused c st now q unp : check_auth c st now (schar (chr unp 0)) (h_from q) = true ->
+  hP c st now q unp =
+  (st, refusal (if h_id q =? 0 then Some [] else if (length unp <? 4)%nat then Some [] else None) q).
+Proof.
+  intros Hc. unfold hP. destruct (h_id q =? 0); [reflexivity|]. destruct (_ <? 4)%nat; [reflexivity|].
+  apply handle_ping_refused, Hc.
+Qed.
+
+Lemma hD_refused c st now q inb dl : check_auth c st now (Z.of_N (hexcode (chr inb 0))) (h_from q) = true ->
+  hD unz c st now q inb dl =
+  (st, refusal (if (dl <? 6)%nat then Some [] else if h_id q =? 0 then Some [] else None) q).
+Proof.
+  intros Hc. unfold hD. destruct (dl <? 6)%nat; [reflexivity|]. destruct (h_id q =? 0); [reflexivity|].
+  apply handle_data_refused. exact Hc.
+Qed.
+
 Theorem hnr_refused c st now rnd q dl uz : (2 <= dl)%nat ->
   named_user q dl = Some uz ->
   cmd_check c st now (cmd_of (chr (req_inb q dl) 0)) uz (h_from q) = true ->
-  handle_null_request login unz c st now rnd q dl =
-  (st, match precheck q dl with Some o => o | None => [mk_answer q s_BADIP 84] end).
+  handle_null_request login unz c st now rnd q dl = (st, refusal (precheck q dl) q).
 Proof.
-  intros Hdl Hn Hc. rewrite hnr_eq. unfold hnr'.
+  intros Hdl. rewrite hnr_eq. unfold hnr', named_user, precheck.
   destruct (dl <? 2)%nat eqn:E; [apply Nat.ltb_lt in E; lia|]. cbv zeta.
-  destruct (cmd_of (chr (req_inb q dl) 0)) eqn:Ek;
-    rewrite (named_of _ _ _ Ek) in Hn; try discriminate; inversion Hn; subst uz; clear Hn;
-    rewrite (precheck_of _ _ _ Ek); cbv beta iota delta [cmd_check] in Hc.
-  - unfold hL. cbv zeta. destruct (_ <? 17)%nat; [reflexivity|]. rewrite Hc. reflexivity.
-  - unfold hI. cbv zeta. rewrite Hc. reflexivity.
-  - unfold hS. cbv zeta. destruct (dl <? 3)%nat; [reflexivity|]. rewrite Hc. reflexivity.
-  - unfold hO. cbv zeta. destruct (dl <? 3)%nat; [reflexivity|]. rewrite Hc. reflexivity.
-  - unfold hR. cbv zeta. destruct (dl <? 16)%nat; [reflexivity|]. rewrite Hc. reflexivity.
-  - unfold hN. cbv zeta. destruct (_ <? 3)%nat; [reflexivity|]. rewrite Hc. reflexivity.
-  - unfold hP. destruct (h_id q =? 0); [reflexivity|]. destruct (_ <? 4)%nat; [reflexivity|].
-    apply handle_ping_refused, Hc.
-  - unfold hD. destruct (dl <? 6)%nat; [reflexivity|]. destruct (h_id q =? 0); [reflexivity|].
-    apply handle_data_refused. exact Hc.
+  destruct (cmd_of (chr (req_inb q dl) 0)); unfold cmd_check; intros Hn Hc; try discriminate;
+    injection Hn as <-.
+  - apply hL_refused, Hc.
+  - apply hI_refused, Hc.
+  - apply hS_refused, Hc.
+  - apply hO_refused, Hc.
+  - apply hR_refused, Hc.
+  - apply hN_refused, Hc.
+  - apply hP_refused, Hc.
+  - apply hD_refused, Hc.
 Qed.
+
+Lemma refusal_some o q : refusal (Some o) q = o.
+Proof. reflexivity. Qed.
 
 Theorem hnr_precheck c st now rnd q dl o : (2 <= dl)%nat -> precheck q dl = Some o ->
   handle_null_request login unz c st now rnd q dl = (st, o).
 Proof.
-  intros Hdl Hp. rewrite hnr_eq. unfold hnr'.
+  intros Hdl. rewrite hnr_eq. unfold hnr', precheck.
   destruct (dl <? 2)%nat eqn:E; [apply Nat.ltb_lt in E; lia|]. cbv zeta.
-  destruct (cmd_of (chr (req_inb q dl) 0)) eqn:Ek; rewrite (precheck_of _ _ _ Ek) in Hp; try discriminate.
+  destruct (cmd_of (chr (req_inb q dl) 0)); intros Hp; try discriminate.
   - unfold hL. cbv zeta. destruct (_ <? 17)%nat; [inversion Hp; reflexivity|discriminate].
   - unfold hS. cbv zeta. destruct (dl <? 3)%nat; [inversion Hp; reflexivity|discriminate].
   - unfold hO. cbv zeta. destruct (dl <? 3)%nat; [inversion Hp; reflexivity|discriminate].
